@@ -810,11 +810,10 @@ func c15LoopCheck(c *Ctx, rule string, pk *packages.Package, fd *ast.FuncDecl, c
 			if c15CountedLoop(c, info, fd, l, start) {
 				header = "counted"
 			}
-			if l.Init == nil && l.Post == nil && l.Cond != nil {
-				if call, ok := unparen(l.Cond).(*ast.CallExpr); ok {
-					if o := callee(info, call); o != nil && o.Pkg() != nil && o.Pkg().Path() == "bufio" && o.Name() == "Scan" {
-						header = "scan"
-					}
+			if call, rest := c15ScanLoop(info, l); call != nil { // c15x.go: `for s.Scan() {` or `for { if !s.Scan() { break }; …`
+				header = "scan"
+				if l.Cond == nil {
+					body = &ast.BlockStmt{Lbrace: l.Body.Lbrace, List: rest, Rbrace: l.Body.Rbrace}
 				}
 			}
 		case *ast.RangeStmt:
